@@ -42,7 +42,9 @@ def gen_network(rng, quick=True, force=None):
         "hyd": hyd,
         "duration": duration,
         "rule": rng.choice([360, 300, 600, hyd, 900]),
-        "report": rng.choice(["ALL", hyd, hyd, 2 * hyd]) if not force.get("report_all") else "ALL",
+        "report": rng.choice(["ALL", hyd, hyd, 2 * hyd, hyd // 2, hyd // 3, hyd + hyd // 2]) if not force.get("report_all") else "ALL",
+        "report_start": rng.choice([0, 0, hyd, 1800]),
+        "quality_step": rng.choice([300, 360, hyd, 700]),
         "pattern_step": rng.choice([hyd, 3600, 7200]),
         "start_clock": rng.choice([0, 0, 3600 * rng.randint(0, 23), rng.randint(0, 86399)]),
         "pdd": f("pdd", 0.3),
@@ -207,6 +209,8 @@ def build_net(wntr, spec):
     o.time.hydraulic_timestep = spec["hyd"]
     o.time.rule_timestep = spec["rule"]
     o.time.report_timestep = spec["report"]
+    o.time.report_start = spec.get("report_start", 0)
+    o.time.quality_timestep = spec.get("quality_step", 360)
     o.time.pattern_timestep = spec["pattern_step"]
     o.time.duration = spec["duration"]
     o.time.start_clocktime = spec["start_clock"]
@@ -522,6 +526,41 @@ class C10(Check):
         net_written = w1 | w2 | w3 | w4 | w5 | {"sim_time"}
         net_read = r1 | r2 | r3 | r4
 
+        # _setup_sim_options: the adjustment of the hydraulic / report steps and whether it looks at the clock
+        try:
+            so = methods["_setup_sim_options"]
+        except KeyError:
+            raise vlib.BrokenTie("WNTRSimulator._setup_sim_options not found")
+        setup_reads_clock = any(isinstance(x, ast.Attribute) and x.attr in ("sim_time", "_prev_sim_time") for x in ast.walk(so))
+
+        def strip_msgs(stmts):
+            out = []
+            for st in stmts:
+                t = ast.unparse(st)
+                if t.startswith(("msg =", "logger.", "warnings.warn")):
+                    continue
+                out.append(st)
+            return out
+
+        num = None
+        for x in so.body:
+            if isinstance(x, ast.If) and ast.unparse(x.test) == "isinstance(self._report_timestep, str)":
+                num = x.orelse
+        setup_toks = None
+        if num and len(num) == 1 and isinstance(num[0], ast.If):
+            a = num[0]
+            b = a.orelse[0] if len(a.orelse) == 1 and isinstance(a.orelse[0], ast.If) else None
+            if (ast.unparse(a.test) == "self._report_timestep < self._hydraulic_timestep"
+                    and [ast.unparse(t) for t in strip_msgs(a.body)] == ["self._hydraulic_timestep = self._report_timestep"]
+                    and b is not None and not b.orelse
+                    and ast.unparse(b.test) == "self._report_timestep % self._hydraulic_timestep != 0"
+                    and [ast.unparse(t) for t in strip_msgs(b.body)] == ["new_report = self._report_timestep - self._report_timestep % self._hydraulic_timestep",
+                                                                        "self._report_timestep = new_report"]):
+                setup_toks = [".ifReportLtHyd_setHydToReport", ".elifReportNotMultiple_floorReport"]
+        if setup_toks is None:
+            raise vlib.BrokenTie("_setup_sim_options: the adjustment of the hydraulic / report timestep for a numeric report timestep is not the "
+                                 "`if report < hyd: hyd = report / elif report % hyd != 0: report = floor` chain the model mirrors")
+
         init_only = set()
         for x in ast.walk(methods["__init__"]):
             for e in targets(x):
@@ -533,7 +572,9 @@ class C10(Check):
             return "/-- %s -/\ndef %s : List String := [%s]\n" % (doc, name, ", ".join('"%s"' % v for v in sorted(xs)))
 
         text = ("/- GENERATED by harness/props/c10.py (translate) from wntr/sim/core.py: class WNTRSimulator, method run_sim.\n"
-                "   Do not edit. -/\nnamespace Wntr.Gen.RestartFields\n\n"
+                "   Do not edit. -/\nimport WntrModel.Model.Restart\nnamespace Wntr.Gen.RestartFields\n\n"
+                + "/-- does `_setup_sim_options` read the clock (`sim_time`, `_prev_sim_time`)? -/\ndef setupReadsClock : Bool := %s\n" % ("true" if setup_reads_clock else "false")
+                + "/-- the step adjustment of `_setup_sim_options` for a numeric report timestep -/\ndef setupAdjust : List Wntr.Restart.SetupTok := [%s]\n" % ", ".join(setup_toks)
                 + lst("storedInLoop", stored, "attributes of the simulator object that the `while True` loop of run_sim or a method it calls REBINDS (`self.x = …`, `self.x[…] = …`)")
                 + lst("wnStoredInLoop", wn_stored, "attributes of the network stored through `self._wn.… = …` in that code")
                 + lst("readInLoop", read, "attributes of the simulator object that code reads (methods excluded)")
@@ -801,6 +842,12 @@ class C10(Check):
         cases = []
         for i in range(n):
             s = schedgen.gen_schedule(rng, ctx.quick, rules=(i % 3 != 0), allow_weird=(i % 7 == 0))
+            if i % 4 == 1:
+                # report timestep below / dividing / not dividing / above the hydraulic timestep: _setup_sim_options adjusts the
+                # steps, and must adjust them in the same way in every part of a paused run
+                h0 = s["hyd"]
+                s["report"] = rng.choice([h0 // 2, h0 // 3, h0 // 2, h0 + h0 // 2, 2 * h0, 3 * h0])
+                ctx.count("sched-paused:report-vs-hyd:" + ("below" if s["report"] < h0 else "non-dividing" if s["report"] % h0 else "multiple"))
             hyd, _ = schedgen.eff_steps(s)
             # durations on the hydraulic grid so that a step is always left after a pause
             pauses = self._pauses(rng, hyd, s["duration"])
